@@ -346,7 +346,7 @@ def run(tier, seed, model_ok, translator, search=False):
                 "collecting} tracker x output form x {default, lenient} fixer. Non-trivial: the damaged input differs "
                 "from the undamaged one; distinct by damaged input + configuration. Base i is generated from (seed, i).")
     thorough = tier == "thorough"
-    n_bases = 22 if thorough else (12 if search else 6)
+    n_bases = 20 if thorough else (12 if search else 6)
     ops, pend = [], []
     for bi in range(n_bases):
         one_base(seed, bi, thorough, out, model_ok, ops, pend)
